@@ -27,9 +27,10 @@ out = ["## Seeded changes and the checks that catch them\n\n",
  "doc tests, and to fail their author's demonstration. \"own check\" is the quick check of the property\n"
  "the change was written against; \"all quick checks that alarm\" comes from `tools/seeded_matrix.sh`\n"
  "(`seeded/matrix.tsv`) where it has been run.\n\n"
- + "".join(f"Round `{sfx}`: {stats(sfx)[0]} changes, {stats(sfx)[0] - stats(sfx)[1]} caught as built, {stats(sfx)[1]} missed at first.\n" for sfx in ['-a', '-b', '-c'] if stats(sfx)[0])
+ + "".join(f"Round `{sfx}`: {stats(sfx)[0]} changes, {stats(sfx)[0] - stats(sfx)[1]} caught as built, {stats(sfx)[1]} missed at first.\n" for sfx in ['-a', '-b', '-c', '-d', '-e', '-f'] if stats(sfx)[0])
  + "\nEach miss led to a widening of a check's domain or oracle (never to a special case for the seeded\n"
- "input), after which every change is caught and the unchanged tree is still silent.\n\n",
+ "input), after which every change is caught - by the check of its own property, except C19-d, which\n"
+ "breaks C11's property rather than C19's and is caught by C11 - and the unchanged tree is still silent.\n\n",
  "| seeded | change (what it needs to manifest) | own check | all quick checks that alarm |\n|---|---|---|---|\n"]
 for name, m in rows:
     det = m.get('detection', 'caught as built')
